@@ -42,7 +42,7 @@ func draw(pkg string, maxIso int) func(*rapid.T) Case {
 		n := gen.Uniform(t, 4, 40, "ncalls")
 		c := Case{Pkg: pkg, Bufs: pool.Bufs}
 		for i := 0; i < n; i++ {
-			c.Calls = append(c.Calls, calls.DrawCall(t, pool, opts))
+			c.Calls = append(c.Calls, calls.DrawCallGC(t, pool, opts))
 		}
 		k := gen.Uniform(t, 0, maxIso, "niso")
 		for i := 0; i < k; i++ {
@@ -292,7 +292,7 @@ func check(c Case) ev.Verdict {
 	return v
 }
 
-const rule = "history = pool of 4-11 input buffers (documents that are spellings/mutations of one another, RFC 6902 patches drawn state-aware against them, merge patches, malformed texts; each allocated with 24 sentinel bytes of spare capacity) x 4-40 calls drawn from DecodePatch, Apply, ApplyIndent, ApplyWithOptions, ApplyIndentWithOptions, operation accessors, MergePatch, MergeMergePatches, CreateMergePatch, Equal with arguments mostly in role and sometimes any buffer in any role; one Patch value per patch buffer is decoded once and reused (1 call in 5 decodes afresh); the history is run forwards and then again in reverse order; up to 3 (v5) / 2 (legacy) calls are also evaluated as the only call of a fresh process; non-trivial = one shared Patch value was applied successfully to >=2 different documents and a failing call (error, or Equal=false) precedes a successful one; distinct = distinct serialised history"
+const rule = "history = pool of 4-11 input buffers (documents that are spellings/mutations of one another, RFC 6902 patches drawn state-aware against them, merge patches, malformed texts; each allocated with 24 sentinel bytes of spare capacity) x 4-40 calls drawn from DecodePatch, Apply, ApplyIndent, ApplyWithOptions, ApplyIndentWithOptions, operation accessors, MergePatch, MergeMergePatches, CreateMergePatch, Equal (and, one step in 25, two garbage collections, which empty the codec's pools) with arguments mostly in role and sometimes any buffer in any role; one Patch value per patch buffer is decoded once and reused (1 call in 5 decodes afresh); the history is run forwards and then again in reverse order; up to 3 (v5) / 2 (legacy) calls are also evaluated as the only call of a fresh process; non-trivial = one shared Patch value was applied successfully to >=2 different documents and a failing call (error, or Equal=false) precedes a successful one; distinct = distinct serialised history"
 
 var unitV5 = ev.Unit[Case]{Name: "history-v5", Rule: rule, Draw: draw("v5", 3), Check: check}
 var unitLegacy = ev.Unit[Case]{Name: "history-legacy", Rule: rule, Draw: draw("legacy", 2), Check: check}
